@@ -8,6 +8,7 @@ use std::panic::{catch_unwind, AssertUnwindSafe};
 
 mod ops;
 mod regs;
+mod lexer;
 
 pub fn geti(v: &serde_json::Value, k: &str) -> Option<i64> {
     v.get("inputs")?.get(k)?.as_i64()
@@ -24,6 +25,7 @@ fn main() {
         Some("ops-math-op") => ops::math_op(&v),
         Some("ops-scalar-op") => ops::scalar_op(&v),
         Some("ops-search") => ops::search(&v),
+        Some("lexer-search") => lexer::search(&v),
         Some("regs") => regs::run(args.get(1).map(String::as_str).unwrap_or(""), &v),
         _ => {
             println!("unknown replay recipe {:?}", args);
